@@ -82,6 +82,16 @@ theorem C07_token_grammar (ncols i : Nat) (t : Ticks) :
   · rintro tok ⟨n, _, rfl⟩
     exact renderDec_kernelTok n
 
+/-- **C07_grammar_exact.** The grammar is EXACTLY the set of strings the renderer prints for a
+    counter: a token is in it iff it is the `%llu` rendering of some number. Hence a live
+    `/proc/stat` whose tokens pass the grammar check is the rendering of a kernel state, which is
+    what `C07_times_exact` quantifies over. -/
+theorem C07_grammar_exact (tok : Bytes) : isKernelTok tok = true ↔ ∃ n : Nat, tok = renderDec n := by
+  constructor
+  · exact kernelTok_is_render tok
+  · rintro ⟨n, rfl⟩
+    exact renderDec_kernelTok n
+
 /-- **C07_grammar_tokens_parse.** On the grammar the parser is total and exact: each token is
     read as its decimal value divided by `USER_HZ` (never ValueError). -/
 theorem C07_grammar_tokens_parse (tck : Nat) (htck : 0 < tck) (tok : Bytes) (h : isKernelTok tok = true) :
